@@ -22,10 +22,10 @@ impl MainState {
             conn_ok(*old(conn_state), *old(state)),
         ensures
             final(conn_state).user_state == old(conn_state).user_state, // @prop C09
-            sym(*final(state)), // @prop C04
+            sym(*final(state)), // @prop C04,C05
             chans_wf(*final(state)), // @prop C04,C08
             no_empty_chan(*final(state)), // @prop C16
-            wallops_wf(*final(state)), // @prop C11,C06
+            wallops_wf(*final(state)), // @prop C11,C06,C05
             counters_wf(*final(state)), // @prop C19
             senders_distinct(*final(state)), // @prop C02,C01
             conn_ok(*final(conn_state), *final(state)), // @prop C09
